@@ -42,14 +42,23 @@ def execute_py7zr_written(case):
         z = None
         import zlib
 
+        nsess = 0
+        aes_used = False
         for i, m in enumerate(shape["members"]):
             sess = m["folder"] if m["folder"] else cur or 1
-            if sess != cur:
+            lonely = case.get("dirsessions") and m["kind"] == "dir" and R.random() < 0.6     # a session that adds only this directory
+            if sess != cur or lonely or cur == "lonely":
                 if z is not None:
                     z.close()
                 bio.seek(0)
-                z = py7zr.SevenZipFile(bio, "w" if cur is None else "a", filters=case["filters"], password=case.get("password"))
-                cur = sess
+                nsess += 1
+                filt, pw = case["filters"], case.get("password")
+                if case.get("mixed"):                      # sessions differ in encryption: AES first, plain later
+                    filt = [{"id": 0x21, "preset": 1}, {"id": 0x06F10701}] if nsess == 1 else [{"id": 0x21, "preset": 1}]
+                    pw = "pw" if nsess == 1 else None
+                    aes_used = True
+                z = py7zr.SevenZipFile(bio, "w" if cur is None else "a", filters=filt, password=pw)
+                cur = "lonely" if lonely else sess
             if m["kind"] == "file":
                 d = rsession.content(i, R)
                 z.writestr(d, names[i])
@@ -65,22 +74,32 @@ def execute_py7zr_written(case):
         if z is None:
             z = py7zr.SevenZipFile(bio, "w")
         z.close()
-        # py7zr stores a zero-length file as a (zero-length) data stream: tell the specification what was really laid out
+        # what was really laid out, as the independent reader sees it: folder and position of every member with a stream
+        # (py7zr stores a zero-length file as a zero-length stream), and the folders that hold no stream at all
+        from ..refcodec import read_archive
+
+        raw = bio.getvalue()
+        end = 32 + int.from_bytes(raw[12:20], "little") + int.from_bytes(raw[20:28], "little")
+        P = read_archive(raw[:end], "pw" if (case.get("password") or case.get("mixed")) else None, strict=False, decode=False)
         shape2 = json.loads(json.dumps(shape))
+        used = sorted({m["folder"] for m in P.members if m["folder"] is not None})
+        renum = {f: k + 1 for k, f in enumerate(used)}
         pos = {}
-        last = 1
-        for i, m in enumerate(shape2["members"]):
-            if m["kind"] in ("file", "empty"):
-                f = m["folder"] or last
-                last = f
-                pos[f] = pos.get(f, 0) + 1
-                m["folder"], m["pos"] = f, pos[f]
-                shape2["nfolders"] = max(shape2["nfolders"], f)
+        for m2, pm in zip(shape2["members"], P.members):
+            if pm["folder"] is None:
+                m2["folder"], m2["pos"] = 0, 0
             else:
-                if m["folder"]:
-                    last = m["folder"]
-        tr = rsession.run_calls(py7zr, bio.getvalue(), shape2, info, case["calls"], target=case.get("target", "stream"),
-                                password=case.get("password"), ending="close", workdir=wd)
+                f = renum[pm["folder"]]
+                pos[f] = pos.get(f, 0) + 1
+                m2["folder"], m2["pos"] = f, pos[f]
+        shape2["nfolders"] = len(used)
+        extra = len(P.folders) - len(used)
+        calls = case["calls"] if not case.get("mixed") else [c for c in case["calls"] if c["name"] not in ("extractall", "reset")]
+        tr = rsession.run_calls(py7zr, raw, shape2, info, calls, target=case.get("target", "stream"),
+                                password=None if case.get("mixed") else case.get("password"), ending="close", workdir=wd,
+                                has_aes=aes_used or any(f.get("id") == 0x06F10701 for f in case["filters"]), extra_folders=extra)
+        if extra and not any(m["kind"] in ("file", "empty") for m in shape["members"]):
+            case["methods"] = sorted(set(case["methods"]) | set(case.get("methods_if_any_folder", [])))
         tr[0]["methods"] = case["methods"]
         return tr
     finally:
@@ -126,8 +145,10 @@ def run(tier, rep, ev):
         filt, names = chains[i % len(chains)]
         pw = "pw" if "7zAES" in names else (None if i % 5 else "pw")
         has_data = any(m["kind"] in ("file", "empty") for m in shape["members"])
+        mixed = i % 10 == 9
         py_cases.append({"shape": shape, "calls": CALLS, "password": pw, "filters": filt, "seed": i, "target": "path" if (i // len(chains)) % 2 == 0 else "stream",
-                         "methods": sorted(set(names)) if has_data else [], "wd": os.path.join(base, f"p{i}")})
+                         "methods": (sorted(set(names)) if not mixed else ["7zAES", "LZMA2"]) if has_data else [], "methods_if_any_folder": sorted(set(names)),
+                         "dirsessions": i % 3 == 0, "mixed": mixed, "wd": os.path.join(base, f"p{i}")})
     traces, origins = [], []
     for fn, cases in ((execute_ref, ref_cases), (execute_py7zr_written, py_cases)):
         outs = sandbox.run_cases(fn, cases, timeout=90, nproc=16)
